@@ -263,6 +263,17 @@ func (sc *pageRankStrategyCalculator) GetStrategies(perSizeClassStatsMap map[uin
 		probabilitiesSum += probability
 	}
 	strategies[0].Probability = 1.0 - probabilitiesSum
+	if strategies[0].Probability < 0 {
+		// The restored probabilities don't add up to a valid
+		// distribution. This may happen if size classes got
+		// added, or if the ISCC entry is malformed. Fall back to
+		// a uniform distribution, as power iteration may
+		// otherwise terminate with probabilities that are
+		// still negative.
+		for i := range strategies {
+			strategies[i].Probability = 1.0 / float64(n)
+		}
+	}
 
 	// Perform power iteration to compute the eigenvector of
 	// M, continuing until the rate of convergence drops
